@@ -418,4 +418,99 @@ theorem bench_verilog_models_equiv {α} (nl : Nl) (hc : CommonNl nl) (z : α) (n
     · rw [if_neg hpn]
       exact h3 s hs (fun h => hpn ((mem_portNames nl s).mpr (Or.inl h)))
 
+/-! ## what is observed at the interface positions -/
+
+theorem find_map_key {β} (F : NlGate → β) (k : NlGate → String) (k' : β → String) (hk : ∀ y, k' (F y) = k y) (l : List NlGate)
+    (g : NlGate) (hg : g ∈ l) (hinj : ∀ y ∈ l, k y = k g → y = g) :
+    (l.map F).find? (fun x => k' x == k g) = some (F g) := by
+  induction l with
+  | nil => cases hg
+  | cons a r ih =>
+    rw [List.map_cons, List.find?_cons]
+    by_cases h : a = g
+    · subst h; simp [hk]
+    · have h2 : k a ≠ k g := fun e => h (hinj a List.mem_cons_self e)
+      have h3 : (k' (F a) == k g) = false := by rw [hk]; simpa using h2
+      rw [h3]
+      rcases List.mem_cons.mp hg with rfl | hg
+      · exact absurd rfl h
+      · exact ih hg (fun y hy => hinj y (List.mem_cons_of_mem _ hy))
+
+theorem find_map_key_none {β} (F : NlGate → β) (k : NlGate → String) (k' : β → String) (hk : ∀ y, k' (F y) = k y) (l : List NlGate)
+    (n : String) (hn : ∀ y ∈ l, k y ≠ n) : (l.map F).find? (fun x => k' x == n) = none := by
+  rw [List.find?_eq_none]
+  intro x hx
+  obtain ⟨y, hy, rfl⟩ := List.mem_map.mp hx
+  rw [hk]
+  simpa using hn y hy
+
+/-- **what is observed is the same list**: per interface position (ports in port-list order, flip-flops, latches) an output port
+shows its signal, a state element its first operand, nothing at input ports -/
+theorem bench_verilog_captures_equiv {α} (nl : Nl) (hc : CommonNl nl) (z : α) (prim : String → α → α → α → α → α) (σ : String → α) :
+    benchCaptures (benchOf nl) σ = vCaptures primTL nl.portNames (verilogOf nl) z prim σ := by
+  rw [benchCaptures, vCaptures, benchSNames_benchOf, vSNames_verilogOf nl hc.ports, List.map_append, List.map_append, List.map_map,
+    List.map_map, List.map_map, List.map_map, sigDecls_verilogOf nl hc.ports, outputNames_nlDecl, vInsts_verilogOf, benchGates_benchOf]
+  congr 1
+  · apply List.map_congr_left
+    intro n hn
+    simp only [Function.comp, isGateName_benchOf, List.contains_eq_mem]
+    rcases (mem_portNames nl n).mp hn with h | h
+    · have h1 : n ∉ nl.gateNames := hc.pis n h
+      have h2 : n ∉ nl.pos := fun h' => h1 (hc.pos n h')
+      have h3 : (nl.gates.map nlInst).find? (fun x => x.name == n) = none :=
+        find_map_key_none nlInst (·.inst) (·.name) (fun _ => rfl) nl.gates n (fun y hy e => hc.idisj y hy (e ▸ hn))
+      have h2' : n ∉ (nl.ports.filter fun p => p.1).map (·.2) := h2
+      simp only [h1, h2', decide_false, Bool.false_eq_true, if_false, h3]
+    · have h1 : n ∈ nl.gateNames := hc.pos n h
+      have h' : n ∈ (nl.ports.filter fun p => p.1).map (·.2) := h
+      simp only [h1, h', decide_true, if_true]
+  · apply List.map_congr_left
+    intro g hgs
+    have hg := mem_seqGates nl g hgs
+    have h1 : (nl.gates.map nlBGate).find? (fun x => x.name == g.name) = some (nlBGate g) :=
+      find_map_key nlBGate (·.name) (·.name) (fun _ => rfl) nl.gates g hg
+        (fun y hy e => nodup_map_inj (fun g : NlGate => g.name) nl.gates hc.gnames g hg y hy e)
+    have h2 : (nl.gates.map nlInst).find? (fun x => x.name == g.inst) = some (nlInst g) :=
+      find_map_key nlInst (·.inst) (·.name) (fun _ => rfl) nl.gates g hg
+        (fun y hy e => nodup_map_inj (fun g : NlGate => g.inst) nl.gates hc.inames g hg y hy e)
+    have h3 : g.inst ∉ (nl.ports.filter fun p => p.1).map (·.2) :=
+      fun h => hc.idisj g hg ((mem_portNames nl g.inst).mpr (Or.inr h))
+    have h4 : inSig primTL (nlInst g) 0 = g.drv[0]? := inSig_instOfGate g.kind g.inst g.name g.drv (hc.len g hg) 0 (by omega)
+    simp only [Function.comp, h1, h2, List.contains_eq_mem, h3, decide_false, Bool.false_eq_true, if_false, h4, nlBGate]
+    cases hd : g.drv with
+    | nil => rfl
+    | cons d r =>
+      have := hc.nc g hg d (by rw [hd]; exact List.mem_cons_self)
+      simp only [List.head?_cons, Option.map_some, List.getElem?_cons_zero, sigVal, this, Bool.false_eq_true, if_false]
+
+/-- the arity domain of the Verilog rendering holds for every description: `primTL` numbers input pins 0..3 only -/
+theorem vArity_verilogOf (nl : Nl) : vArityB primTL (verilogOf nl) = true := by
+  rw [vArityB, List.all_eq_true]
+  intro i _
+  rw [Bool.or_eq_true, List.all_eq_true]
+  right
+  intro c hc
+  rw [inConn, List.mem_filterMap] at hc
+  obtain ⟨ps, _, hps⟩ := hc
+  rw [p2In] at hps
+  have key : ∀ idx, primTL i.ty ps.1 = some (idx, false) → idx < 4 := by
+    intro idx h
+    unfold primTL at h
+    split at h
+    · cases h
+    · split at h
+      · cases h; omega
+      · split at h
+        · cases h; omega
+        · split at h
+          · cases h; omega
+          · split at h
+            · cases h; omega
+            · cases h
+  split at hps
+  · rename_i idx s h1 _
+    cases hps
+    exact decide_eq_true (key idx h1)
+  · cases hps
+
 end KV.Netlist
